@@ -12,6 +12,8 @@ import (
 	"time"
 
 	"verif/mx"
+
+	"github.com/lmorg/murex/lang"
 )
 
 // JSON encodes v compactly without HTML escaping (witnesses stay readable and canonical: struct
@@ -170,7 +172,19 @@ func Run(block string, o *mx.Opt) mx.Result {
 		<-crashCh
 	}
 	done := make(chan mx.Result, 1)
-	go func() { done <- mx.Run(block, o) }()
+	var fork *lang.Fork
+	oo := mx.Opt{}
+	if o != nil {
+		oo = *o
+	}
+	userSetup := oo.Setup
+	oo.Setup = func(f *lang.Fork) {
+		fork = f
+		if userSetup != nil {
+			userSetup(f)
+		}
+	}
+	go func() { done <- mx.Run(block, &oo) }()
 	select {
 	case r := <-done:
 		// a crash report may have been printed by a run that nevertheless returned
@@ -186,8 +200,35 @@ func Run(block string, o *mx.Opt) mx.Result {
 		case r := <-done:
 			r.Crash = "Murex has crashed: " + crashSummary(rep)
 			return r
-		case <-time.After(300 * time.Millisecond):
+		case <-time.After(5 * time.Millisecond):
 		}
+		reap(fork)
 		return mx.Result{Hang: true, Crash: "Murex has crashed: " + crashSummary(rep)}
+	}
+}
+
+// reap cancels what an abandoned (crashed) run left behind: the surviving pipeline stages would
+// otherwise spin in streams.Stdin.Read for ever, waiting for the crashed stage to close its stdout.
+func reap(fork *lang.Fork) {
+	defer func() { recover() }()
+	if fork == nil {
+		return
+	}
+	for _, procs := range fork.Forks.GetForks() {
+		for _, p := range *procs {
+			if p.Stdin != nil {
+				p.Stdin.ForceClose()
+			}
+			if p.Stdout != nil {
+				p.Stdout.ForceClose()
+			}
+			if p.Done != nil {
+				p.Done()
+			}
+		}
+	}
+	fork.KillForks(1)
+	if fork.Done != nil {
+		fork.Done()
 	}
 }
